@@ -618,6 +618,42 @@ def mon_streamed_readback(rr):
     return out
 
 
+def gen_unset_option_programs():
+    """Writers whose options leave something UNSET that another option could be mistaken to imply: no algorithm but a
+    declared integrity of sha512 / sha1 / sha256, no size but a declared integrity, a builder reused for a second
+    writer.  Every opener (keyed / by address, both flavours) must treat the unset option alike."""
+    progs = []
+    d = b"data for a writer with half of its options set"
+    for decl in ("sha512", "sha1", "sha256", "sha384"):
+        for keyed in (True, False):
+            k = hx(b"unset-" + decl.encode()) if keyed else "-"
+            sri = hx(L.sri_of(decl, d).encode())
+            ops = [f"wopen s c0 W1 {k} algo=- size=- sri={sri} time=- meta=- raw=-", f"wwrite W1 {hx(d)}", "wcommit W1"]
+            if keyed:
+                ops += [f"metadata s c0 {k}", f"read s c0 {k}"]
+            ops += [f"exists s c0 {sri}", f"read_hash s c0 {sri_tok('sha256', d)}"]
+            progs.append(Program(f"unset-algo-{decl}-{int(keyed)}", ops, tags={"variety": ("unset", decl, keyed)}))
+    return progs
+
+
+def gen_async_protocol_programs():
+    """Calls of the AsyncWrite protocol that only the async handles have - `close()` on async-std, `shutdown()` on tokio -
+    issued before / instead of `commit`, between writes, twice: whatever the library answers (closing discards the
+    data; a commit afterwards fails), both runtimes answer it, and leave the same cache."""
+    progs = []
+    d = b"written, then the handle is closed"
+    for keyed in (True, False):
+        k = hx(b"closed") if keyed else "-"
+        for name, tail in (("close-commit", ["wclose W1", "wcommit W1"]), ("close-write-commit", ["wclose W1", f"wwrite W1 {hx(b'more')}", "wcommit W1"]),
+                           ("close-twice-drop", ["wclose W1", "wclose W1", "wdrop W1"]), ("flush-close-commit", ["wflush W1", "wclose W1", "wcommit W1"])):
+            ops = [f"wopen a c0 W1 {k} algo=sha256 size=- sri=- time=- meta=- raw=-", f"wwrite W1 {hx(d)}"] + tail
+            if keyed:
+                ops.append(f"metadata a c0 {k}")
+            ops += [f"exists a c0 {sri_tok('sha256', d)}", w_oneshot("a", "sha256", b"afterwards", b"x"), f"read a c0 {hx(b'afterwards')}"]
+            progs.append(Program(f"asyncproto-{name}-{int(keyed)}", ops, model=False, tags={"async_only": True, "variety": ("asyncproto", name, keyed)}))
+    return progs
+
+
 def gen_stray_root_programs():
     """Things in the cache directory that the library did not put there - a regular file, a symlink, a FIFO-less
     selection of what `tar`, editors and users leave behind - and then the bulk operations: `clear`, a listing, a
